@@ -30,6 +30,7 @@ def run(ctx) -> None:
     ctx.guard("C08.regex", regex_agreement)
     ctx.guard("C08.id-template", id_templates)
     ctx.guard("C08.id-template", grid_construction)
+    ctx.guard("C08.id-template", id_width)
     ctx.guard("C08.unknown-well", unknown_well)
 
 
@@ -353,6 +354,43 @@ def id_templates(ctx, rule: str = "C08.id-template") -> None:
                 ctx.rep.check(sub.value == ALPHABET, rule, f"{m.name}/alphabet@{n_alpha}", "row alphabet is A..Z in order",
                               f"row alphabet literal `{sub.value}` is not the 26 letters A..Z in order", where=f"{m.relpath}:{sub.lineno}")
     ctx.rep.floor(rule, "row alphabet literals", n_alpha, 1)
+
+
+_FIXED_STR_DTYPE = __import__("re").compile(r"^[<>|=]?[USa](\d+)$")
+
+
+def _fixed_width_dtypes(tree: ast.AST):
+    """(call, width) for every array construction with a fixed-width string dtype literal ('<U3', 'S4', ...)."""
+    out = []
+    for sub in ast.walk(tree):
+        if not isinstance(sub, ast.Call):
+            continue
+        cands = [k.value for k in sub.keywords if k.arg == "dtype"]
+        if call_fname(sub) in ("empty", "zeros", "full", "array", "asarray", "empty_like", "zeros_like", "full_like", "astype", "dtype", "chararray"):
+            cands += list(sub.args[1:]) if call_fname(sub) not in ("astype", "dtype") else list(sub.args[:1])
+        for c in cands:
+            if isinstance(c, ast.Constant) and isinstance(c.value, str):
+                m = _FIXED_STR_DTYPE.match(c.value)
+                if m:
+                    out.append((sub, int(m.group(1))))
+    return out
+
+
+def id_width(ctx, rule: str = "C08.id-template") -> None:
+    """Well IDs have no maximum length (A100 for the 100th column): no array that holds them has a fixed-width string dtype."""
+    n = 0
+    for f in ctx.prog.all_functions():
+        for call, width in _fixed_width_dtypes(f.node):
+            n += 1
+            ctx.rep.touch(f)
+            ctx.rep.refuted(rule, f"{f.qualname}/dtype[{width}]", f"`{show(call)[:60]}` creates a string array whose elements are cut to {width} characters: well IDs of columns >= 100 "
+                            "(A100 -> A10) collide with other wells, so the array disagrees with the labware's wells/indices", where=f.where(call))
+    # positive fixture: the rule expects zero sites on the real tree
+    fx = ast.parse("import numpy\ndef fx(R, C):\n    return numpy.empty((R, C), dtype='<U3')\n")
+    if not _fixed_width_dtypes(fx):
+        ctx.rep.inconclusive(rule, "fixture/fixed-width-dtype", "embedded positive fixture was not detected: rule is broken")
+    elif n == 0:
+        ctx.rep.holds(rule, "package/no-fixed-width-string-arrays", "no array is created with a fixed-width string dtype literal (fixture with dtype='<U3' is detected)")
 
 
 def grid_construction(ctx, rule: str = "C08.id-template") -> None:
